@@ -368,6 +368,11 @@ func asmSymbols() [][]byte {
 		d[0] = 0x6a // data starting with the OP_RETURN byte is still data
 		syms = append(syms, append(refPrefix(l), d...))
 	}
+	// pushes whose hex rendering consists of decimal digits only (a parser that also accepts
+	// decimal numbers must not read them as numbers), or looks like an opcode name
+	for _, d := range [][]byte{{0x00, 0x10}, {0x00, 0x00}, {0x00, 0x09}, {0x00, 0x00, 0x05}, {0x12, 0x34}, {0x00, 0x16}, {0x10, 0x00}, {0x99, 0x99, 0x99}} {
+		syms = append(syms, append(refPrefix(len(d)), d...))
+	}
 	return syms
 }
 
@@ -404,7 +409,7 @@ func trunc(s string) string {
 
 func init() {
 	p := register(&Prop{ID: "C13", Level: "exploration",
-		Rule: "exhaustive: (scripts) every byte string of length<=2 plus length 3 over a 68-symbol alphabet (quick) / every byte string of length<=3 (thorough), every string of length 4 (thorough: 5) over a 14-symbol control-flow / OP_RETURN / push-header alphabet, and every truncation at every position of 40 longer well-formed scripts, through DecodeParts, Parse/Unparse, hex and JSON against the reference tokenizer; (parts) every list of <=3 items with lengths in {1,2,75,76,255,256,65535,65536} x 3 fill patterns through EncodeParts/PushDataPrefix/DecodeParts/AppendPushDataArray/Parse; (asm) every sequence of length<=2 (quick) / <=3 (thorough) over {all 178 non-push opcode bytes, minimal pushes of 2,3,75,76,255,256 bytes} that is not a data script through ToASM/NewFromASM. distinct_nontrivial = distinct (token count, well-formedness, has-return) classes x length for scripts + distinct part-length vectors + distinct asm strings",
+		Rule: "exhaustive: (scripts) every byte string of length<=2 plus length 3 over a 68-symbol alphabet (quick) / every byte string of length<=3 (thorough), every string of length 4 (thorough: 5) over a 14-symbol control-flow / OP_RETURN / push-header alphabet, and every truncation at every position of 40 longer well-formed scripts, through DecodeParts, Parse/Unparse, hex and JSON against the reference tokenizer; (parts) every list of <=3 items with lengths in {1,2,75,76,255,256,65535,65536} x 3 fill patterns through EncodeParts/PushDataPrefix/DecodeParts/AppendPushDataArray/Parse; (asm) every sequence of length<=2 (quick) / <=3 (thorough) over {all 178 non-push opcode bytes, minimal pushes of 2,3,75,76,255,256 bytes, 8 pushes whose hex reads as a decimal number} that is not a data script through ToASM/NewFromASM. distinct_nontrivial = distinct (token count, well-formedness, has-return) classes x length for scripts + distinct part-length vectors + distinct asm strings",
 	})
 	sS := NewSpace(p, "scripts", c13ScriptCheck)
 	sP := NewSpace(p, "parts", c13PartsCheck)
